@@ -724,4 +724,21 @@ theorem occ_eq_filter {g : NodeInfoM → List Str} {k : Str} {infos : List (Str 
       (hg p List.mem_cons_self).count, List.filter_cons]
     by_cases h : k ∈ g p.2 <;> simp [h]
 
+/-- In an association list with distinct keys a key has one value. -/
+theorem eq_of_mem_of_nodup_keys {α β : Type} {l : List (α × β)} (hn : (l.map Prod.fst).Nodup)
+    {k : α} {a b : β} (ha : (k, a) ∈ l) (hb : (k, b) ∈ l) : a = b := by
+  induction l with
+  | nil => simp at ha
+  | cons p rest ih =>
+    simp only [List.map_cons, List.nodup_cons] at hn
+    have hk : ∀ {c : β}, (k, c) ∈ rest → k ∈ rest.map Prod.fst :=
+      fun hc => List.mem_map.2 ⟨_, hc, rfl⟩
+    rcases List.mem_cons.1 ha with ha1 | ha1
+    · rcases List.mem_cons.1 hb with hb1 | hb1
+      · rw [← ha1] at hb1; cases hb1; rfl
+      · subst ha1; exact absurd (hk hb1) hn.1
+    · rcases List.mem_cons.1 hb with hb1 | hb1
+      · subst hb1; exact absurd (hk ha1) hn.1
+      · exact ih hn.2 ha1 hb1
+
 end Reclass
